@@ -16,7 +16,7 @@ RULE = ("one case = one DAG (edges in construction order, each added through a r
         "is weakly connected), ancestors, descendants, siblings and go_to to every node. Exhaustive: every acyclic "
         "edge set on <=4 labelled nodes, every construction order of edge sets with <=3 edges, shuffled orders "
         "above, every start node. Random: DAGs with 5..10 nodes, up to 4 parents per node, every start node, some "
-        "disconnected (go_to refusal). Corpus: docstring DAG, diamond, 3- and 4-parent nodes whose last parent "
+        "disconnected (go_to refusal); 'fan' DAGs (a centre with 3-4 parents and/or children, each owning a private appendix). Corpus: docstring DAG, diamond, 3- and 4-parent nodes whose last parent "
         "leads to otherwise unreachable edges. Non-trivial = at least 3 edges; distinct = distinct protocol lines")
 EXHAUSTIVE = {
     "quick": "all acyclic edge sets on 1..4 labelled nodes (1+3+25+543) x every start node; every construction order for edge sets with <=3 edges, 2 orders above",
@@ -87,6 +87,10 @@ def gen(rng: random.Random, tier: str):
             for o in orders:
                 for s in range(n):
                     cases.append(mk_case(n, o, s, rng, tags=("enum", "n=%d" % n, "m=%d" % len(es))))
+    for _ in range(60 if tier == "quick" else 600):
+        n, edges = U.fan_dag(rng)
+        for s in range(n):
+            cases.append(mk_case(n, edges, s, rng, tags=("fan",)))
     nr = 300 if tier == "quick" else 4000
     for k in range(nr):
         n = rng.randint(5, 10)
